@@ -4,7 +4,8 @@
    GetHttpConnectionCompleted replies in order (with the attributes of the replied connection and the handler
    the request head is dispatched to), HttpLayer.connections and waiting_for_establishment after the call, the
    attributes of the Server objects the call created; finally the shape of every layer stack.
-   check_case recomputes all of it with the model. *)
+   check_case recomputes all of it with the model, and evaluates the environment contract step_ok (the
+   hypothesis of the routing theorem) on every step of the observed history. *)
 From Coq Require Import List Bool NArith.
 From MV Require Import Base.Bytes Model.HttpRoutingBase Gen.ConnSpec Model.HttpRouting.
 Import ListNotations.
@@ -53,7 +54,7 @@ Fixpoint check_steps (cf : cfg) (s : lstate) (steps : list step) (observed : lis
   | [], [] => list_eqb stack_eqb (l_stacks s) stacks
   | e :: es, o :: os =>
       let (s1, outs) := step_fn cf s e in
-      obs_ok s s1 outs o && check_steps cf s1 es os stacks
+      step_ok s e && obs_ok s s1 outs o && check_steps cf s1 es os stacks
   | _, _ => false
   end.
 
